@@ -66,7 +66,7 @@ Section World.
     | SCreate root req no_dh dr sf ipats ifile =>
         let fl := match ifile with Some l => l | None => [] end in
         match sf with
-        | [] => at_root root (fun sub => create_folder Hb matches C cdig ser sub req no_dh ipats fl) t
+        | [] => at_root root (fun sub => create_folder Hb matches C cdig ser sub req no_dh dr ipats fl) t
         | _ => at_root root (fun sub => create_sf Hb matches C cdig ser sub req (map (strip_prefix root) sf) ipats fl) t
         end
     | SVerify root sf ipats =>
